@@ -263,7 +263,7 @@ Section Safe.
     rv_is_nil x = false -> wf_rv raw -> wf_rv x ->
     let r := match import_scalar O f t x with
              | Ok r => (CVal r f t, Ok tt)
-             | Err e => (CVal rnil f t, Err e)
+             | Err e => (CVal (match f with FBad => raw | _ => rnil end) f t, Err e)
              | Panic => (CVal raw f t, Panic)
              | Fuel => (CVal raw f t, Fuel)
              end in
@@ -272,7 +272,7 @@ Section Safe.
     intros En Hraw Hx. pose proof (np_import_scalar f t x (to_gval_nonnil _ En)) as Hn.
     destruct (import_scalar O f t x) as [r| | |] eqn:E; cbn.
     - split; [discriminate | eapply wf_import_scalar; eauto].
-    - split; [discriminate | exact I].
+    - split; [discriminate | destruct f; first [exact I | exact Hraw]].
     - contradiction Hn; reflexivity.
     - split; [discriminate | exact Hraw].
   Qed.
